@@ -834,11 +834,12 @@ func c09PartQ(r *vlib.Run, item *int) {
 		return alpha
 	}
 
+	tiny := mkalpha("EHA", []string{"err"})
 	small := mkalpha("EHA", []string{"err", "r:SY"})
 	full := mkalpha("ESHA", []string{"err", "ign", "r:SY", "r:BR"})
 	plain := mkalpha("EHA", nil)
 
-	shapes := vlib.Pick(r, [][][]c09event{{small, small}}, [][][]c09event{{full, full}, {small, plain, plain}})
+	shapes := vlib.Pick(r, [][][]c09event{{tiny, tiny}}, [][][]c09event{{full, full}, {small, plain, plain}})
 
 	var shapetxt []string
 
